@@ -87,7 +87,7 @@ func (e *Engine) resolveCall(st *State, c *ssa.CallCommon) callTarget {
 	switch f := c.Value.(type) {
 	case *ssa.Function:
 		t.fn = f
-		t.name = f.Name()
+		t.name = plainName(f.Name())
 		t.contract = e.specs.lookup(f)
 	case *ssa.Builtin:
 		t.name = f.Name()
@@ -1199,8 +1199,17 @@ func (e *Engine) doAppend(st *State, in ssa.Instruction, s, t Val, mode int) Val
 			// model it as a copy of the old array function re-based by off (uninterpreted shift kept exact
 			// for the appended element and, through the frame axiom below, for the prefix)
 			base := Select(h, s.L[0])
-			contents = Ite(inPlace, Store(base, Add(s.L[1], s.L[2]), tv.L[i]),
-				Store(st.shifted(base, s.L[1], l.Sort), s.L[2], tv.L[i]))
+			if mode == 2 {
+				// reallocated: a fresh array whose first len(s) elements are the old ones and whose
+				// next element is the appended one (stated below, for every leaf)
+				c := st.ctx.freshConst("newarr", arrSort(l.Sort))
+				q := Term{sym(st.ctx.freshName("q!cp")), SInt}
+				st.assume(Term{fmt.Sprintf("(forall ((%s Int)) %s)", q.S, Implies(And(Le(I(0), q), Lt(q, s.L[2])), Eq(Select(c, q), Select(base, Add(s.L[1], q)))).S), SBool})
+				contents = Store(c, s.L[2], tv.L[i])
+			} else {
+				contents = Ite(inPlace, Store(base, Add(s.L[1], s.L[2]), tv.L[i]),
+					Store(st.shifted(base, s.L[1], l.Sort), s.L[2], tv.L[i]))
+			}
 		} else {
 			// several elements: unconstrained contents, except that appending nothing changes nothing
 			contents = Ite(Eq(addLen, I(0)), Select(h, s.L[0]), st.ctx.freshConst("hv!append", arrSort(l.Sort)))
@@ -1658,7 +1667,7 @@ func qualifiedCallee(t callTarget) string {
 	if t.fn == nil || t.fn.Pkg == nil {
 		return ""
 	}
-	return t.fn.Pkg.Pkg.Name() + "." + t.fn.Name()
+	return t.fn.Pkg.Pkg.Name() + "." + plainName(t.fn.Name())
 }
 
 func qualifiedCalleeOf(c *ssa.CallCommon) string {
@@ -1747,6 +1756,14 @@ func (e *Engine) runHooks(st *State, in ssa.Instruction, t callTarget, after boo
 				}
 				st.ctx.note("site-specific assumption in %s at call %s: %s", funcKey(st.fr.fn), key, h.Cl.Text)
 				st.assume(tm)
+			case "havoc":
+				// site-specific frame of a callee that acts through a callback: the named
+				// variables / fields may have any value afterwards (listed as an assumption)
+				if err := st.havocNamed(env, h.Var); err != nil {
+					st.bindFail(st.ctx.oblName(in, "assert")+"/havoc", err)
+				} else {
+					st.ctx.note("site-specific frame in %s at call %s: %s may change (callback)", funcKey(st.fr.fn), key, h.Var)
+				}
 			case "ghost":
 				func() {
 					defer func() {
@@ -1774,6 +1791,61 @@ func (e *Engine) runHooksAfter(st *State, in ssa.Instruction, t callTarget, r Va
 }
 
 // ---------------------------------------------------------------------------
+// havocNamed gives a local variable (bare identifier) or a field location x.f an arbitrary value.
+func (st *State) havocNamed(env *SpecEnv, loc string) (err error) {
+	defer func() {
+		if r := recover(); r != nil {
+			switch x := r.(type) {
+			case specError:
+				err = fmt.Errorf("havoc %s: %s", loc, x.msg)
+			case unsupported:
+				err = fmt.Errorf("havoc %s: %s", loc, x.msg)
+			default:
+				panic(r)
+			}
+		}
+	}()
+	var p *PtrInfo
+	if !strings.ContainsAny(loc, ".[(*") {
+		// a local variable of the current frame
+		bestCell := -1
+		for v, rv := range st.fr.regs {
+			a, ok := v.(*ssa.Alloc)
+			if !ok || a.Comment != loc || rv.P == nil {
+				continue
+			}
+			id := 0
+			if rv.P.Kind == pkCell {
+				if _, live := st.cells[rv.P.Cell]; !live {
+					continue
+				}
+				id = rv.P.Cell
+			}
+			if p == nil || id > bestCell {
+				p, bestCell = rv.P, id
+			}
+		}
+		if p == nil {
+			return fmt.Errorf("havoc %s: no such local variable", loc)
+		}
+	} else {
+		ex, perr := parseSpecExpr("&(" + loc + ")")
+		if perr != nil {
+			return perr
+		}
+		pv := env.eval(ex)
+		if pv.P == nil {
+			return fmt.Errorf("havoc %s: not a location", loc)
+		}
+		p = pv.P
+	}
+	_, _, t := pathRange(p.Root, p.Path)
+	fresh := st.freshVal(t, st.ctx.freshName("hv!site"))
+	st.boundRefs(fresh)
+	st.storePtr(p, fresh)
+	return nil
+}
+
 // lock bookkeeping
 
 type lockTouch struct {
